@@ -27,8 +27,15 @@ func (x *Exec) finish(st *State, res []Val) {
 	}
 	bindResults(names, r, fn.Signature, fn)
 	env := &Env{x: x, st: st, names: names, entryNames: x.entry, cur: st.H, old: Heap{}, tctx: x.P.typeCtxFor(x.spec, fn), alloc: "|alloc@0|"}
+	ghostKeys := map[string]bool{}
 	for _, ga := range x.spec.Ghost {
+		before := st.H.copy()
 		x.ghostStore(st, env, ga)
+		for k, v := range st.H.M {
+			if before.M[k] != v {
+				ghostKeys[k] = true // written by the contract's own ghost statements: call sites replay them
+			}
+		}
 		env.cur = st.H
 	}
 	x.retPaths++
@@ -40,6 +47,7 @@ func (x *Exec) finish(st *State, res []Val) {
 		x.oblige(st, "ensures:"+c.Label, "ensures", c.Src, g)
 		st.assume(g) // cut: a clause proved on this path may be used for the clauses that follow it
 	}
+	x.frameCheck(st, env, ghostKeys)
 	if len(x.spec.ExitAssert) > 0 {
 		lenv := *env
 		lenv.frame = st.fr // locals of the function are visible; a clause naming a local not yet defined on this path is vacuous here
@@ -384,4 +392,46 @@ func mentionsOtherOp(ln string, keep map[string]bool) bool {
 		}
 	}
 	return false
+}
+
+// frameCheck: the frame is proved, not assumed.  Every heap array the path has written (or a loop or a
+// callee has havocked) and that the contract's `modifies` clause does not cover must agree with its entry
+// value on every object that existed at entry -- callers keep what they know about those arrays.
+func (x *Exec) frameCheck(st *State, env *Env, ghostKeys map[string]bool) {
+	if x.spec.Trusted || x.spec.Lemma {
+		return
+	}
+	allowed := map[string]bool{}
+	for _, p := range x.spec.Modifies {
+		if p == "*" {
+			return
+		}
+		if strings.HasPrefix(p, "callback:") {
+			continue
+		}
+		for k := range x.patternKeys(p, env.tctx) {
+			allowed[k] = true
+		}
+	}
+	if st.H.Epoch != 0 {
+		x.oblige(st, "frame:everything", "frame", "a call or loop with unknown effects leaves no array to compare", "false")
+		return
+	}
+	for _, k := range sortedKeys2(st.H.M) {
+		if allowed[k] || ghostKeys[k] {
+			continue
+		}
+		if g := x.frameGoal(st, k); g != "" {
+			x.oblige(st, "frame:"+k, "frame", "not in modifies: unchanged on every object that existed at entry", g)
+		}
+	}
+}
+
+func sortedKeys2(m map[string]string) []string {
+	var ks []string
+	for k := range m {
+		ks = append(ks, k)
+	}
+	sort.Strings(ks)
+	return ks
 }
